@@ -1,5 +1,6 @@
 (* c16_driver.ml — runs the extracted C16 object-state machine on request lines.
    request : key <K|H> <kind> <op,op,...|->      |  wk <kind> <op,...|->   |  wal <conf> <op,...|->
+             (operations may carry arguments: Pm~account_id=i1~witness_type=ssegwit, see xop_of)
    response: one token for the initial state and one per operation, space separated:
              <ok|err>:<output taint P|S|->:<compressed 0|1>:<one code per field A|N|P|S>          *)
 module M = C16_model
@@ -25,6 +26,34 @@ let op_of = function
   | "ChildPriv0" -> M.OChildPriv false | "ChildPriv1" -> M.OChildPriv true
   | "ChildPub" -> M.OChildPub | "PublicMaster" -> M.OPublicMaster
   | _ -> failwith "op"
+
+(* argument-carrying operations:  <Pm|Pmm|Wp|Hw|PmA>[~name=value]*   value: N | T | F | i<int> | s<text> | ? *)
+let cstr (s : string) : M.string =
+  let n = String.length s in
+  let rec go i =
+    if i >= n then M.EmptyString
+    else
+      let c = Char.code s.[i] in
+      let b k = (c lsr k) land 1 = 1 in
+      M.String (M.Ascii (b 0, b 1, b 2, b 3, b 4, b 5, b 6, b 7), go (i + 1)) in
+  go 0
+let aval_of v =
+  if v = "N" then M.ANone else if v = "T" then M.ABool true else if v = "F" then M.ABool false
+  else if v = "?" then M.ATop
+  else if String.length v > 0 && v.[0] = 'i' then M.AInt (Z.of_string (String.sub v 1 (String.length v - 1)))
+  else if String.length v > 0 && v.[0] = 's' then M.AStr (cstr (String.sub v 1 (String.length v - 1)))
+  else failwith "aval"
+let args_of l =
+  List.map (fun kv -> match String.index_opt kv '=' with
+    | Some j -> (cstr (String.sub kv 0 j), aval_of (String.sub kv (j + 1) (String.length kv - j - 1)))
+    | None -> failwith "arg") l
+let xop_of s =
+  match String.split_on_char '~' s with
+  | "Pm" :: l -> M.XPm (args_of l)
+  | "Pmm" :: l -> M.XPmm (args_of l)
+  | "Wp" :: l -> M.XWifPublic (args_of l)
+  | "Hw" :: l -> M.XHdWif (args_of l)
+  | _ -> M.XOp (op_of s)
 
 let wkind_of = function
   | "priv1" -> M.WkPrivate true | "priv0" -> M.WkPrivate false
@@ -77,9 +106,9 @@ let dispatch = function
       let rec go k acc = function
         | [] -> List.rev acc
         | o :: r ->
-            let o = op_of o in
-            let (k', ok) = M.step o k in
-            let t = taint (M.out_taint (M.exports o k)) in
+            let o = xop_of o in
+            let (k', ok) = M.xstep o k in
+            let t = taint (M.out_taint (M.xexports o k)) in
             go k' (tok ok t k' (codes (M.key_codes k')) :: acc) r in
       String.concat " " (go k0 [tok true "-" k0 (codes (M.key_codes k0))] (ops_of ops))
   | ["wk"; kind; ops] ->
@@ -97,6 +126,23 @@ let dispatch = function
       let mains w = String.concat "/" (List.map (fun k -> codes (M.wk_codes k)) (M.wal_mains w)) in
       let rec go w acc = function
         | [] -> List.rev acc
+        | o :: r when (match String.split_on_char '~' (match String.index_opt o '.' with
+                          | Some j when o.[0] = 'c' -> String.sub o (j + 1) (String.length o - j - 1) | _ -> o) with
+                        | "PmA" :: _ -> true | _ -> false) ->
+            (* Wallet.public_master(args) on the wallet or on one cosigner wallet.  Another account / network / witness
+               type may make the wallet derive new keys, which parses the cached main and account key objects again:
+               the adapter makes that definite, as for get_key / new_key (LOther) *)
+            let (w', tgt, body) = match String.index_opt o '.' with
+              | Some j when o.[0] = 'c' ->
+                  let i = int_of_string (String.sub o 1 (j - 1)) in
+                  let w' = M.wal_step (M.WCos (nat_of i, M.LOther)) w in
+                  (w', (match w' with M.WMulti cos -> M.WSimple (List.nth cos i) | _ -> failwith "cosigner"),
+                   String.sub o (j + 1) (String.length o - j - 1))
+              | _ -> let w' = M.wal_step (M.WTop M.LOther) w in (w', w', o) in
+            let a = args_of (List.tl (String.split_on_char '~' body)) in
+            let rets = M.wallet_public_master_args tgt a in
+            let rc = if rets = [] then "-" else String.concat "/" (List.map (fun k -> codes (M.wk_codes k)) rets) in
+            go w' (Printf.sprintf "ok:-:%s:%s" (mains w') rc :: acc) r
         | o :: r ->
             let o = walop_of o in
             let w' = M.wal_step o w in
